@@ -80,6 +80,14 @@ def combos(chk, tier):
         netgen.leeds_line(1, ["N2"], ["N", "N"], a=2.3e-10, c=3.9, rtype=4), netgen.leeds_line(2, ["CO"], ["C", "O"], a=2.0e-10, c=3.5, rtype=4),
         netgen.leeds_line(3, ["H2"], ["H", "H"], a=5.7e-11, c=4.2, rtype=4), netgen.leeds_line(4, ["H", "H"], ["H2"], a=1e-17, rtype=1),
         netgen.leeds_line(5, ["C", "O"], ["CO"], a=1e-17, rtype=1), netgen.leeds_line(6, ["N", "N"], ["N2"], a=1e-17, rtype=1)]) + "\n")
+    # dust grains carried as explicit species (charge exchange with the grains): GRAIN0 / GRAIN- become network species,
+    # and the neutral grain an element of the element tables
+    (d / "grains.leeds").write_text("\n".join([
+        netgen.leeds_line(1, ["HCO+", "GRAIN-"], ["H", "CO", "GRAIN0"], rtype=6), netgen.leeds_line(2, ["e-", "GRAIN0"], ["GRAIN-"], rtype=20),
+        netgen.leeds_line(3, ["H", "H"], ["H2"]), netgen.leeds_line(4, ["CO"], ["GCO"], rtype=7), netgen.leeds_line(5, ["GCO"], ["CO"], rtype=8),
+        netgen.leeds_line(6, ["H+", "GRAIN-"], ["H", "GRAIN0"], rtype=6), netgen.leeds_line(7, ["H", "CO"], ["HCO+", "e-"])]) + "\n")
+    out.append(("leeds-grain-species+hh93", [d / "grains.leeds"], ["leeds"], "hh93", {}, G))
+    out.append(("leeds-grain-species+nograin", [d / "grains.leeds"], ["leeds"], "", {}, G))
     out.append(("leeds-photo+nograin", [d / "photo.leeds"], ["leeds"], "", {}, G))
     out.append(("leeds-uclchem-mixture+nograin", [d / "photo.leeds", d / "ice-notherm.ucl"], ["leeds", "uclchem"], "", {}, E))
     out.append(("uclchem-leeds-mixture+rr07", [d / "ice-notherm.ucl", d / "photo.leeds"], ["uclchem", "leeds"], "rr07", {}, E))
